@@ -28,6 +28,7 @@ func init() {
 				c16PolicyWiringAs(c, "C17/caps-wiring", map[string]bool{"TokenAuth": true, "SmartCardAuth": true})
 			}},
 			{"C17/stream-ends", "when the packet loop ends (capability mismatch included) the client-facing connections are closed on every exit (C11's transport rule)", func(c *Ctx) { c11ClientTransportsAs(c, "C17/stream-ends") }},
+			{"C17/response-sent", "Tunnel.Write hands the packet to the transport before it returns, so the refusal is on the wire before the tunnel is closed", func(c *Ctx) { tunnelWriteSync(c, "C17/response-sent") }},
 			{"C17/request-layout", "handshakeRequest reads u8,u8,u16,u16 little-endian into major, minor, version, extAuth", c17RequestLayout},
 		},
 	})
